@@ -245,7 +245,7 @@ def _known_quirk(pep, f, mono, bad, tol):
     if bad[0] == 'mz':
         d *= f.charge
     z = 0 if bad[0] == 'neutral_mass' else f.charge
-    qs = _static_term_amount(pep, f, mono) if pep['static'] else 0.0
+    qs = 0.0  # (static N-Term / C-Term rules counted per residue: fixed by 99d59c3, no longer a known deviation)
     ql = _label_amount(pep, f, mono, z) if pep['isotope'] else 0.0
     # average mode: tabulated average masses of named modifications differ from their composition-derived average by up to ~1e-3 each (C03 tolerance)
     tol = tol + 1e-5 + ((1e-4 if mono else 2e-3) * (f.end - f.start) + (0 if mono else 1e-5 * abs(qs)))
